@@ -164,8 +164,9 @@ class NonlocalGame:
             num_bob_inputs,
         ) = self.pred_mat.shape
 
-        # Create a copy of pred_mat to avoid in-place modification
-        pred_mat_copy = np.copy(self.pred_mat)
+        # Create a floating-point copy of pred_mat to avoid in-place modification (an integer-typed
+        # predicate would otherwise truncate the probability-weighted entries to zero).
+        pred_mat_copy = np.array(self.pred_mat, dtype=float)
 
         for x_alice_in in range(num_alice_inputs):
             for y_bob_in in range(num_bob_inputs):
